@@ -13,7 +13,7 @@
    strictly smaller (first minimum). *)
 From Coq Require Import List ZArith Bool Sorted.
 Import ListNotations.
-Open Scope Z_scope.
+Local Open Scope Z_scope.
 
 Record msg : Type := mkMsg { m_src : nat; m_pos : nat; m_inst : Z }.
 
